@@ -368,8 +368,10 @@ static int okt_load(struct module_data *m, HIO_HANDLE * f, const int start)
 	ret |= libxmp_iff_register(handle, "PBOD", get_pbod);
 	ret |= libxmp_iff_register(handle, "SBOD", get_sbod);
 
-	if (ret != 0)
+	if (ret != 0) {
+		libxmp_iff_release(handle);
 		return -1;
+	}
 
 	libxmp_set_type(m, "Oktalyzer");
 
